@@ -1,7 +1,7 @@
 (** Correspondence evaluators for C13: run the model on the inputs the
     harness fed to the implementation and compare with what it observed. *)
 From Coq Require Import List NArith ZArith Bool String.
-From Verif Require Import Lib.Bytes Sni.Wire Sni.WireGenDefs Gen.WireSchema.
+From Verif Require Import Lib.Bytes Sni.Wire Sni.WireChunks Sni.WireReader Sni.WireGenDefs Gen.WireSchema.
 Import ListNotations.
 Local Open Scope N_scope.
 
@@ -30,7 +30,42 @@ Definition rep (b n : N) : bytes := repN b (N.to_nat n).
 Definition kinds_match (sch : schema) (vs : list value) : bool :=
   (List.length sch =? List.length vs)%nat.
 
+(** * Reader behaviours (round 3)
+
+    How the harness's reader delivered the input, as a [reader] of
+    Sni/WireChunks.v: 0 everything at once, EOF on the next call; 1 one byte
+    per Read; 2 short reads (three bytes at a time); 3 everything at once
+    TOGETHER with io.EOF; 4 zero-length reads in between; 5 at most seven
+    bytes per Read; 6 one byte per Read, the last one together with io.EOF.
+    By Sni/WireReader.v the result cannot depend on it; the evaluation below
+    runs the reader-based model all the same, so that the reader behaviour
+    is part of the replayed case. *)
+Fixpoint chunks_of (fuel k : nat) (b : bytes) : list bytes :=
+  match fuel with
+  | O => [b]
+  | S f => match b with
+           | [] => []
+           | _ => firstn k b :: chunks_of f k (skipn k b)
+           end
+  end.
+
+Definition mk_reader (shape : N) (input : bytes) : reader N :=
+  let n := List.length input in
+  match shape with
+  | 1 => mkR N (map (fun x => [x]) input) false
+  | 2 => mkR N (chunks_of n 3 input) false
+  | 3 => mkR N [input] true
+  | 4 => mkR N ([] :: firstn (n / 2) input :: [] :: [] :: skipn (n / 2) input :: [[]]) false
+  | 5 => mkR N (chunks_of n 7 input) false
+  | 6 => mkR N (map (fun x => [x]) input) true
+  | _ => mkR N [input] false
+  end.
+
 Inductive ccase :=
+| CDecS (shape : N) (name : string) (cap : N) (do_end : bool) (input : bytes)
+        (exp_err exp_count : N) (exp_fields : list value) (impl_alloc : N)
+| CStartS (shape : N) (input : bytes) (exp_err : N) (exp_id exp_typ : N) (exp_name : string)
+          (exp_fields : list value) (impl_alloc : N)
 | CEnc (name : string) (fields : list value) (expect : bytes)
 | CEncReply (id typ ec : N) (name : string) (fields : list value) (expect : bytes)
 | CDec (name : string) (cap : N) (do_end : bool) (input : bytes)
@@ -55,6 +90,28 @@ Definition err_read_code : N :=
 Definition check_case_with (schs : list (string * schema)) (tbl : request_table)
   (c : ccase) : bool :=
   match c with
+  | CDecS shape name cap do_end input exp_err exp_count exp_fields impl_alloc =>
+      match assoc_str name schs with
+      | Some sch =>
+          let '(vs, s) := rdec_schema gen_alloc_max cap sch (rinit (mk_reader shape input)) in
+          let d := abs (if do_end then rd_end s else s) in
+          (err_code (err d) =? exp_err) && (cnt d =? exp_count) &&
+          (if exp_err =? 0 then list_eqb value_eqb vs exp_fields else true) &&
+          alloc_agrees impl_alloc (alloc d) (lenN input)
+      | None => false
+      end
+  | CStartS shape input exp_err exp_id exp_typ exp_name exp_fields impl_alloc =>
+      let '(r, s) := rstart_call gen_alloc_max tbl (mk_reader shape input) in
+      alloc_agrees impl_alloc (rs_alloc s) (lenN input) &&
+      match r with
+      | CErr e => err_code (Some e) =? exp_err
+      | CUnknown id t =>
+          (exp_err =? 0) && (id =? exp_id) && (t =? exp_typ) &&
+          String.eqb exp_name "" && list_eqb value_eqb [] exp_fields
+      | CReq id t name vs =>
+          (exp_err =? 0) && (id =? exp_id) && (t =? exp_typ) &&
+          String.eqb exp_name name && list_eqb value_eqb vs exp_fields
+      end
   | CEnc name vs expect =>
       match assoc_str name schs with
       | Some sch => kinds_match sch vs && bytes_eqb (enc_schema sch vs) expect
